@@ -12,6 +12,7 @@ CONSTANTS Family = "heco"
           MaxStored = 4
           MaxLen = 5
           EmitOn = TRUE
+          TwoBranch = FALSE
           TraceLen = 0
 VIEW View
 INVARIANT PropC29
